@@ -15,6 +15,7 @@ from .circle import Circle
 from .utils import (
     _generate_ax,
     _hoomd_dict_mapping,
+    _is_minimal_bounding_ball,
     _map_dict_keys,
     rotate_order2_tensor,
     translate_inertia_tensor,
@@ -514,6 +515,10 @@ class Polygon(Shape2D):
             attempt += 1
             try:
                 center, r2 = miniball.get_bounding_ball(vertices)
+                # miniball can silently return a ball that misses vertices or is
+                # not minimal; treat that like a failed solve and retry.
+                if not _is_minimal_bounding_ball(vertices, center, r2):
+                    raise np.linalg.LinAlgError("miniball returned a wrong ball.")
                 break
             except np.linalg.LinAlgError:
                 current_rotation = rowan.random.rand(1)
